@@ -174,7 +174,7 @@ Qed.
 (* step                                                                    *)
 (* ====================================================================== *)
 Definition gres_of (w : bool) (x : sim * cres) : gres :=
-  match snd x with ResOk => GRet RNone w (fst x) | ResRefused => GExc EDSOL w (fst x) end.
+  match snd x with ResOk => GRet RNone w (fst x) | ResRefused => GExc EDSOL w (fst x) | ResRaised => GExc EOther w (fst x) end.
 
 Lemma opt_end_eq s : py_opt_end (rep s) = end_time s.
 Proof. reflexivity. Qed.
@@ -377,46 +377,69 @@ Qed.
 (* initialize                                                              *)
 (* ====================================================================== *)
 Definition constructed (p : program) (s : sim) : sim :=
-  let '(s3, failed) := exec_actions InConstruct (set_created [] s) (body p 0) in
-  if failed then raise_flag s3 else s3.
+  fst (exec_actions InConstruct (set_created [] s) (body p 0)).
+(* construct_model raises *)
+Definition construct_fails (p : program) (s : sim) : bool :=
+  snd (exec_actions InConstruct (set_created [] s) (body p 0)).
 
-Lemma py_construct_model_eq p w s : py_construct_model p w s = GRet RNone w (constructed p s).
+Lemma py_construct_model_eq p w s :
+  py_construct_model p w s =
+  if construct_fails p s then GExc EOther w (constructed p s) else GRet RNone w (constructed p s).
 Proof.
-  unfold py_construct_model, constructed. rewrite gen_exec_actions_eq.
+  unfold py_construct_model, constructed, construct_fails. rewrite gen_exec_actions_eq.
   destruct (exec_actions InConstruct (set_created [] s) (body p 0)) as [s1 [|]]; reflexivity.
 Qed.
 
+Lemma exec_actions_construct_rs acts : forall s, rs (fst (exec_actions InConstruct s acts)) = rs s.
+Proof.
+  induction acts as [|a r IH]; intros s; cbn [exec_actions fst]; [reflexivity|].
+  assert (E : rs (fst (exec_action InConstruct s a)) = rs s).
+  { destruct a; cbn [exec_action fst]; try reflexivity.
+    - unfold do_sched. destruct (sched_time s m); reflexivity.
+    - unfold do_cancel. destruct (nth_error (created s) k); [|reflexivity]. destruct (ev_mem e (pend s)); reflexivity. }
+  destruct (exec_action InConstruct s a) as [s1 [|]]; cbn [fst] in *; [exact E|]. rewrite IH. exact E.
+Qed.
+
 Lemma constructed_frame p s :
-  rep (constructed p s) = rep s /\ worker (constructed p s) = worker s /\ clock (constructed p s) = clock s.
+  rep (constructed p s) = rep s /\ worker (constructed p s) = worker s /\ clock (constructed p s) = clock s
+  /\ rs (constructed p s) = rs s /\ ps (constructed p s) = ps s.
 Proof.
   unfold constructed.
   pose proof (exec_actions_hstep InConstruct (body p 0) (set_created [] s)) as [F _ _ _ _].
-  destruct (exec_actions InConstruct (set_created [] s) (body p 0)) as [s3 [|]]; cbn [fst] in F;
-    destruct F; ssimpl; auto.
+  pose proof (exec_actions_construct_rs (body p 0) (set_created [] s)) as R.
+  destruct F; ssimpl; auto 10.
 Qed.
+
+(* the simulator object on which construct_model is called *)
+Definition preinit (s : sim) (r : repl) : sim :=
+  set_clock (r_start r) (set_rep (Some r) (set_worker WAlive (match worker s with WNone => s | _ => do_cleanup s end))).
 
 (* Simulator.initialize on a simulator that is not running, with a proper model and replication *)
 Definition initialized (p : program) (s : sim) (r : repl) : sim :=
-  let s1 := match worker s with WNone => s | _ => do_cleanup s end in
-  set_ps PInit (set_rs RInit (constructed p (set_clock (r_start r) (set_rep (Some r) (set_worker WAlive s1))))).
+  set_ps PInit (set_rs RInit (constructed p (preinit s r))).
 
 Lemma gen_base_initialize_eq p w s r : running s = false ->
-  gen_Simulator_initialize p w s ModelOk (ReplOk r) = GRet RNone false (initialized p s r).
+  gen_Simulator_initialize p w s ModelOk (ReplOk r) =
+  if construct_fails p (preinit s r) then GExc EOther false (constructed p (preinit s r))
+  else GRet RNone false (initialized p s r).
 Proof.
-  intros Hrun. unfold gen_Simulator_initialize, initialized. ntests. rewrite ?Hrun. unf_py. cbv zeta.
+  intros Hrun. unfold gen_Simulator_initialize, initialized, preinit. ntests. rewrite ?Hrun. unf_py. cbv zeta.
   cbn [py_model_is_model py_model_has_simulator py_repl_is_repl py_repl py_opt_start]. bsimpl.
   destruct (worker s) eqn:Ew; bsimpl; rewrite ?gen_cleanup_eq; rewrite ?py_construct_model_eq; cbn [gbind];
-    rewrite ?py_construct_model_eq; reflexivity.
+    rewrite ?py_construct_model_eq;
+    match goal with |- context [construct_fails p ?X] => destruct (construct_fails p X) end; reflexivity.
 Qed.
 
 Lemma do_init_unfold p s r :
   do_init p s r =
   if running s then (s, ResRefused)
+  else if construct_fails p (preinit (set_pend [] s) r)
+       then (set_ps PNotInit (set_rs RNotInit (constructed p (preinit (set_pend [] s) r))), ResRaised)
   else let s5 := initialized p (set_pend [] s) r in
        ((if r_warm r <? clock s5 then raise_flag s5
          else set_nid (nid s5 + 1) (set_pend (ins (mkEv (r_warm r) 10 (nid s5) HWarm 0) (pend s5)) s5)), ResOk).
 Proof.
-  unfold do_init, initialized, constructed. destruct (running s); [reflexivity|]. ssimpl.
+  unfold do_init, initialized, constructed, construct_fails, preinit. destruct (running s); [reflexivity|]. ssimpl.
   destruct (worker s);
     (match goal with |- context [exec_actions InConstruct ?X ?B] => destruct (exec_actions InConstruct X B) as [s3 [|]] end);
     reflexivity.
@@ -424,22 +447,46 @@ Qed.
 
 Lemma initialized_rep p s r : rep (initialized p s r) = Some r.
 Proof.
-  unfold initialized. ssimpl.
+  unfold initialized, preinit. ssimpl.
   match goal with |- rep (constructed p ?X) = _ => rewrite (proj1 (constructed_frame p X)) end. reflexivity.
 Qed.
 
-Theorem gen_initialize_eq p s r :
+Lemma set_notinit_id s : rs s = RNotInit -> ps s = PNotInit -> set_ps PNotInit (set_rs RNotInit s) = s.
+Proof. destruct s; cbn. intros -> ->. reflexivity. Qed.
+
+(* the representation invariant of the Python object the equalities need: a simulator that has been
+   initialised (and not cleaned up since) has a replication and a worker thread *)
+Definition sim_wf (s : sim) : Prop :=
+  (rs s = RNotInit /\ ps s = PNotInit) \/ (rep s <> None /\ worker s <> WNone).
+
+(* right before construct_model is called neither state says "initialised" *)
+Lemma preinit_notinit s r : sim_wf s -> rs (preinit s r) = RNotInit /\ ps (preinit s r) = PNotInit.
+Proof.
+  intros Hwf. unfold preinit. ssimpl. destruct (worker s) eqn:Ew; ssimpl; auto.
+  destruct Hwf as [H|[_ H]]; [exact H|congruence].
+Qed.
+
+Theorem gen_initialize_eq p s r : sim_wf s ->
   match gen_DEVSSimulator_initialize p false s ModelOk (ReplOk r) with
   | GRet _ _ s1 => (s1, ResOk)
   | GExc EDSOL _ s1 => if running s then (s1, ResRefused) else (raise_flag s1, ResOk)
-  | GExc _ _ s1 => (raise_flag s1, ResRefused)
+  | GExc EOther _ s1 => (s1, ResRaised)
+  | GExc EExit _ s1 => (raise_flag s1, ResRefused)
   end = do_init p s r.
 Proof.
+  intros Hwf.
   unfold gen_DEVSSimulator_initialize. rewrite do_init_unfold. ntests.
   cbn [py_model_is_model py_model_has_simulator py_repl_is_repl]. cbv zeta.
   destruct (running s) eqn:Hrun; bsimpl; [reflexivity|].
   unfold py_eventlist_clear.
-  rewrite gen_base_initialize_eq by (ssimpl; exact Hrun). cbn [gbind]. cbv zeta.
+  rewrite gen_base_initialize_eq by (ssimpl; exact Hrun).
+  destruct (construct_fails p (preinit (set_pend [] s) r)) eqn:Hf.
+  { cbn [gbind]. f_equal. symmetry.
+    assert (Hwf0 : sim_wf (set_pend [] s)) by (destruct Hwf as [H|H]; [left|right]; ssimpl; exact H).
+    destruct (preinit_notinit (set_pend [] s) r Hwf0) as [R P].
+    destruct (constructed_frame p (preinit (set_pend [] s) r)) as (_&_&_&Rc&Pc).
+    apply set_notinit_id; congruence. }
+  cbn [gbind]. cbv zeta.
   set (s5 := initialized p (set_pend [] s) r).
   assert (Hrep : rep s5 = Some r) by apply initialized_rep.
   unfold py_is_some. rewrite Hrep. cbn [negb py_opt_warm].
@@ -471,11 +518,6 @@ Qed.
 (* ====================================================================== *)
 (* whole commands and command sequences                                    *)
 (* ====================================================================== *)
-(* the representation invariant of the Python object the equalities need: a simulator that has been
-   initialised (and not cleaned up since) has a replication and a worker thread *)
-Definition sim_wf (s : sim) : Prop :=
-  (rs s = RNotInit /\ ps s = PNotInit) \/ (rep s <> None /\ worker s <> WNone).
-
 Lemma init_sim_wf st : sim_wf (init_sim st).
 Proof. left. split; reflexivity. Qed.
 
@@ -491,11 +533,12 @@ Proof. intros [[_ H]|H] Hp; [congruence|exact H]. Qed.
 Theorem gen_do_cmd_eq fuel p s c : sim_wf s -> gen_do_cmd fuel p s c = do_cmd fuel p s c.
 Proof.
   intros Hwf. destruct c; cbn [gen_do_cmd do_cmd].
-  - apply gen_initialize_eq.
+  - apply gen_initialize_eq. exact Hwf.
   - apply gen_initialize_bad_eq.
   - apply gen_start_eq. apply wf_worker. exact Hwf.
   - rewrite gen_step_eq by (apply wf_rep; exact Hwf). unfold gres_of.
-    destruct (do_step p s) as [s' [|]]; reflexivity.
+    destruct (do_step p s) as [s' [| |]] eqn:E; try reflexivity.
+    exfalso. unfold do_step in E. destruct (step_checks s); inversion E.
   - rewrite gen_stop_eq. destruct (running s); reflexivity.
   - apply gen_run_up_to_eq. apply wf_worker. exact Hwf.
   - apply gen_run_up_to_including_eq. apply wf_worker. exact Hwf.
@@ -546,11 +589,12 @@ Theorem do_cmd_wf fuel p s c : sim_wf s -> sim_wf (fst (do_cmd fuel p s c)).
 Proof.
   intros Hwf. destruct c; cbn [do_cmd].
   - (* initialize *)
-    rewrite do_init_unfold. destruct (running s); [exact Hwf|]. cbn [fst]. right.
+    rewrite do_init_unfold. destruct (running s); [exact Hwf|].
+    destruct (construct_fails p (preinit (set_pend [] s) r)); [left; ssimpl; auto|]. cbn [fst]. right.
     set (s5 := initialized p (set_pend [] s) r).
     assert (Hr : rep s5 = Some r) by apply initialized_rep.
     assert (Hk : worker s5 = WAlive).
-    { unfold s5, initialized. ssimpl.
+    { unfold s5, initialized, preinit. ssimpl.
       match goal with |- worker (constructed p ?X) = _ => rewrite (proj1 (proj2 (constructed_frame p X))) end. reflexivity. }
     destruct (r_warm r <? clock s5); ssimpl; rewrite Hr, Hk; split; discriminate.
   - exact Hwf.
